@@ -82,7 +82,7 @@ wrap_ctx = dict(cls='receiver_wrapper', members=['op_'], pre=[
 ])
 
 SPEC = dict(
-    properties=['C13'],
+    properties=['C13', 'C02'],   # C02: no access to the stream / the next operation after the consumer may have been signalled
     ctx=dict(enums=ENUMS),
     extracts={
         # the six-state enum, generated from the source (enumerators in source order, prefixed ST_)
